@@ -296,8 +296,15 @@ def rx_nf(t):
             return out
         if x[0] == 'eps':
             return []
-        if x[0] in ('alt',):
-            return [['alt'] + [rx_nf(y) for y in x[1:]]]
+        if x[0] == 'alt':
+            a, c = rx_nf(x[1]), rx_nf(x[2])
+            # "x?": the model writes the lexemes' optional parts as (empty | x) and a binding's greedy "?" as (x | empty);
+            # same language, and only the latter's order enters a theorem (C05_engine_captures) - one normal form for both
+            if a == ['eps']:
+                return [['opt', c]]
+            if c == ['eps']:
+                return [['opt', a]]
+            return [['alt', a, c]]
         if x[0] == 'star':
             return [['star', rx_nf(x[1])]]
         return [x]
@@ -342,7 +349,7 @@ def rx_tree(pat):
             lo, hi, sub = av
             body = seq(list(sub))
             if (lo, hi) == (0, 1):
-                return ['alt', ['eps'], body]
+                return ['alt', body, ['eps']]          # greedy: the body first
             if lo == 0 and hi is sc.MAXREPEAT:
                 return ['star', body]
             if lo == 1 and hi is sc.MAXREPEAT:
